@@ -35,9 +35,13 @@ ASSUMPTIONS = [
 PARTIAL = ('"The written image is a valid PNG" and "pixels of the file" are runtime behaviour of pypng + zlib, outside the '
            'Coq model: observed on every case by an independent PNG reader (signature, CRCs, chunk order, zlib stream, '
            'filters, size), not proved. The theorems are about the pixel rows handed to / received from pypng. '
-           'The .p8 -> .p8.png -> .p8 chain: C04_p8_png_p8 (Properties/C04Chain.v) is proved at the model level with the '
-           'lexer-stack facts (echo writer reproduces the text, re-lexing succeeds) as hypotheses, as in C03; the real '
-           'chain is observed on the test carts and generated carts.')
+           'The .p8 -> .p8.png -> .p8 chain: C04_p8_png_p8 (Properties/C04Chain.v) is proved at the model level for an '
+           'abstract Lua object with the lexer-stack facts as hypotheses; C04_p8_png_p8_lexer instantiates it with the '
+           'lexer model and the echo writer and discharges ALL of them (each of the three readings re-lexes, final code = '
+           'the echoed text with a final newline supplied, plus one more for plain storage) for code text without '
+           'carriage returns; with carriage returns (C04_p8_png_p8_lexer_cr) the .p8.png reader lexes a different text '
+           '(CR -> space) and that the lexer accepts it stays a hypothesis. Left as in C03: the parser accepts what the '
+           'lexer accepts. The real chain is observed on the test carts and generated carts.')
 TRUSTED = ['harness/pngref.py (independent PNG reader/writer, ~150 lines, cross-checked against pypng on the test carts)',
            'Spec/P8PngSpec.v and Spec/PxcFormat.v: the cart image format transcribed by hand from the format notes',
            'pypng + zlib (container: observed, not modelled)']
@@ -56,7 +60,9 @@ CLAIM = dict(
           "real files written by file.to_file and decoded by an independent PNG reader; extracted instance predicates "
           "judge the real pixels and the real cart read back. C04_p8_png_p8 (Properties/C04Chain.v) composes this with C03's .p8 round trip: "
           ".p8 -> .p8.png -> .p8 succeeds at every step and preserves regions and version, the code up to the two readers' "
-          "normalisations (lexer-stack facts as hypotheses). PARTIAL: PNG container validity is observed at run time "
+          "normalisations (lexer-stack facts as hypotheses); C04_p8_png_p8_lexer: the same with the lexer model and echo "
+          "writer as the Lua object and every lexer-stack hypothesis discharged, for code without carriage returns "
+          "(C04_p8_png_p8_lexer_cr: with them, the re-lex of the CR->space text stays a hypothesis). PARTIAL: PNG container validity is observed at run time "
           "with an independent PNG reader, not proved."),
     note=("Trusted: Coq kernel+VM, translator + sub-expression hook, ExtrOcamlBasic extraction, OCaml glue, "
           "harness/pngref.py, the hand transcription of the cart image format in Spec/P8PngSpec.v, the hand-modelled "
